@@ -533,8 +533,68 @@ def _check_concat(run, mod, G, cfg, ys, fn):
         for ch in ast.iter_child_nodes(x):
             parent[id(ch)] = x
 
+    def int_bit_source(test):
+        """The same for integer arithmetic: `M & 2**j`, `(M >> j) & 1` with
+        M = (H.as_integer << 8) | L.as_integer (or + / * 256)."""
+        t = astq.resolve(fx, test, defs=defs)
+        j = None
+        m = None
+        if isinstance(t, ast.Compare) and len(t.ops) == 1 and isinstance(
+                t.ops[0], ast.NotEq) and unparse(t.comparators[0]) == "0":
+            t = t.left
+        if isinstance(t, ast.Call) and unparse(t.func) == "bool" and len(
+                t.args) == 1:
+            t = t.args[0]
+        if isinstance(t, ast.BinOp) and isinstance(t.op, ast.BitAnd):
+            for (a_, b_) in ((t.left, t.right), (t.right, t.left)):
+                if isinstance(b_, ast.Constant) and type(b_.value) is int \
+                        and b_.value > 0 and b_.value & (b_.value - 1) == 0:
+                    if b_.value == 1 and isinstance(a_, ast.BinOp) and \
+                            isinstance(a_.op, ast.RShift) and isinstance(
+                                a_.right, ast.Constant):
+                        j, m = a_.right.value, a_.left
+                    else:
+                        j, m = b_.value.bit_length() - 1, a_
+                    break
+        if m is None or type(j) is not int:
+            return None
+        # byte positions of M
+        terms = []
+
+        def split(x):
+            if isinstance(x, ast.BinOp) and isinstance(
+                    x.op, (ast.BitOr, ast.Add)):
+                split(x.left)
+                split(x.right)
+            else:
+                terms.append(x)
+        split(m)
+        pos = {}
+        for x in terms:
+            k = 0
+            if isinstance(x, ast.BinOp) and isinstance(
+                    x.right, ast.Constant) and type(x.right.value) is int:
+                if isinstance(x.op, ast.LShift) and x.right.value % 8 == 0:
+                    k, x = x.right.value // 8, x.left
+                elif isinstance(x.op, ast.Mult) and x.right.value == 256:
+                    k, x = 1, x.left
+                else:
+                    return None
+            tx = unparse(x)
+            names = {"%s.raw_value.as_integer" % L: L,
+                     "%s.raw_value.as_integer" % H: H}
+            if tx not in names or k in pos:
+                return None
+            pos[k] = names[tx]
+        if j // 8 in pos and 0 <= j < 16:
+            return (pos[j // 8], j % 8)
+        return None
+
     def bit_source(test):
         """(answer name, bit) read by a test `W[j]`, W resolved."""
+        r_ = int_bit_source(test)
+        if r_ is not None:
+            return r_
         if not (isinstance(test, ast.Subscript) and isinstance(
                 test.slice, ast.Constant) and type(test.slice.value) is int):
             return None
